@@ -11,7 +11,7 @@ Open Scope Z_scope.
 Inductive obs :=
 | ONone
 | OProg (dur : Z) (chans : list chan) (samples : list (chan * list oq)) (wins : list win)
-| ORaise.      (* create_program raised KeyError('Invalid input channels') *)
+| ORaise.      (* create_program or sampling a leaf raised KeyError('Invalid input channels') *)
 
 Inductive case :=
 | COpt (p : pt) (S : list N) (G : list trafo) (plain opt : obs)
@@ -45,6 +45,10 @@ Definition model_obs (p : pt) (S : list N) (G : list trafo) : obs :=
   | None => ONone
   | Some prog =>
       let cs := prog_chans prog in
+      (* a leaf that raises KeyError when it is looked at, or leaves on different channel sets (the harness cannot
+         sample such a program and reports it like a raise) *)
+      if existsb wf_raises (flat prog) || negb (forallb (fun w => list_eqb N.eqb (isort N.leb (wchans w)) cs) (flat prog))
+      then ORaise else
       OProg (ldur prog) cs (map (fun c => (c, map (play prog c) (range_z (ldur prog)))) cs)
             (isort win_leb (windows prog))
   end.
@@ -57,6 +61,7 @@ Definition samples_eqb (a b : list (chan * list oq)) : bool :=
 Definition obs_eqb (a b : obs) : bool :=
   match a, b with
   | ONone, ONone => true
+  | ORaise, ORaise => true
   | OProg d1 c1 s1 w1, OProg d2 c2 s2 w2 =>
       (d1 =? d2) && list_eqb N.eqb c1 c2 && samples_eqb s1 s2 && list_eqb win_eqb w1 w2
   | _, _ => false
